@@ -2026,6 +2026,24 @@ var oddities = []oddity{
 		x = append(x, make([]byte, (512-len(body)%512)%512)...)
 		return cat(x, rawTarFile("etc/os-release", genOsRelease(r)), rawTarEnd())
 	}},
+	{"pax-size-over-data", func(r *hx.Rand) []byte {
+		// The size record says a little more than the member has: within the
+		// archive segment (so Open accepts it), past the data (so every read of
+		// the tail fails with unexpected EOF). One or two scanner files.
+		var b []byte
+		for k, n := 0, 1+r.Intn(2); k < n; k++ {
+			p := scannerPaths[r.Intn(len(scannerPaths))]
+			body := sampleFor(r, p)
+			over := []int{1, 2, 100, 511, 512, 600, 1024, 1500}[r.Intn(8)]
+			pad := (512 - len(body)%512) % 512
+			b = append(b, paxRecords("size", fmt.Sprint(len(body)+pad+over))...)
+			b = append(b, rawTarFile(p, body)...)
+		}
+		if r.Chance(1, 2) {
+			b = append(cat(rawTarHeader("var/lib/dpkg/info/", '5', 0, "", 0o755)), b...)
+		}
+		return append(b, rawTarEnd()...)
+	}},
 	{"pax-odd-records", func(r *hx.Rand) []byte {
 		body := []byte(lyPick(r, "0 path=x\n", "999999999999 path=x\n", "11 path=\x00\n", "5 x\n", "30 linkpath=../../../../etc/x\n", "19 GNU.sparse.major=1\n18 GNU.sparse.size=9\n", strings.Repeat("13 path=aaaa\n", 2000)))
 		x := rawTarHeader("PaxHeaders.0/x", lyPick(r, "x", "g")[0], int64(len(body)), "", 0o644)
